@@ -4,8 +4,12 @@ import NeumannModel.TwoPC.Model
   Line-protocol driver for the 2PC model (C03).  State = one `Sys`.
     init <nshards> <txTimeout> <maxConcurrent> <lockTimeout>
     preload <sh> <k> <v>
-    begin <shards csv> <ops: per-shard segments '/'; ops '+'; p<k>=<v> | d<k> | -> <sim: i.j,i.j | ->
+    begin <shards csv> <ops: per-shard segments '/'; ops '+'; see `parseOp` | -> <sim: i.j,i.j | ->
+      ops: p<k>=<v> Put | d<k> Delete | e<k>=<v> Embed | n<k>=<l> NodeCreate | N<k> NodeDelete |
+           g<f>.<t>.<ty> EdgeCreate | i<t>=<v> TableInsert | u<t>.<r>=<v> TableUpdate | U<t>.<r> TableDelete |
+           c<k>?<e|_>=<v> CompareAndSwap (expected byte e, or _ for the empty expectation)
     deliver <i> | sweep | tick <d> | ccommit <tx> | cabort <tx>
+    forge <tx> <sh> <y<h>:<k.k>|n|c<tx>>                   (a vote no participant produced joins the pool)
     stale <sh> <timeout> | recover <sh> <timeout>          (outside the property's alphabet)
     cvote <tx> <sh> <y<h>:<k.k>|n|c<tx>> [sim]             (coordinator-level record_vote)
     dump
@@ -38,6 +42,22 @@ def showVote : Vote → String
 def showOp : Op → String
   | .put k v => s!"p{k}={v}"
   | .del k => s!"d{k}"
+  | .embed k v => s!"e{k}={v}"
+  | .nodeCreate k l => s!"n{k}={l}"
+  | .nodeDelete k => s!"N{k}"
+  | .edgeCreate f t ty => s!"g{f}.{t}.{ty}"
+  | .tableInsert t v => s!"i{t}={v}"
+  | .tableUpdate t r v => s!"u{t}.{r}={v}"
+  | .tableDelete t r => s!"U{t}.{r}"
+  | .cas k e v => s!"c{k}?{match e with | some x => toString x | none => "_"}={v}"
+
+def showVal : Val → String
+  | .data v => toString v
+  | .vec v => s!"vec:{v}"
+  | .node l => s!"node:{l}"
+  | .edge => "edge"
+  | .rows v => s!"rows:{v}"
+  | .row r v => s!"row:{r}:{v}"
 
 def showOps (ops : List Op) : String :=
   if ops.isEmpty then "-" else "+".intercalate (ops.map showOp)
@@ -48,13 +68,43 @@ def showMsg : Msg → String
   | .commit tx sh => s!"C{tx}.{sh}"
   | .abort tx sh => s!"A{tx}.{sh}"
 
+def parseKV (rest : List Char) : Option (Nat × Nat) :=
+  match (String.ofList rest).splitOn "=" with
+  | [k, v] => do pure ((← k.toNat?), (← v.toNat?))
+  | _ => none
+
 def parseOp (s : String) : Option Op :=
   match s.toList with
-  | 'p' :: rest =>
-    match (String.ofList rest).splitOn "=" with
-    | [k, v] => do pure (Op.put (← k.toNat?) (← v.toNat?))
-    | _ => none
+  | 'p' :: rest => do let (k, v) ← parseKV rest; pure (Op.put k v)
   | 'd' :: rest => do pure (Op.del (← (String.ofList rest).toNat?))
+  | 'e' :: rest => do let (k, v) ← parseKV rest; pure (Op.embed k v)
+  | 'n' :: rest => do let (k, v) ← parseKV rest; pure (Op.nodeCreate k v)
+  | 'N' :: rest => do pure (Op.nodeDelete (← (String.ofList rest).toNat?))
+  | 'g' :: rest =>
+    match (String.ofList rest).splitOn "." with
+    | [f, t, ty] => do pure (Op.edgeCreate (← f.toNat?) (← t.toNat?) (← ty.toNat?))
+    | _ => none
+  | 'i' :: rest => do let (k, v) ← parseKV rest; pure (Op.tableInsert k v)
+  | 'u' :: rest =>
+    match (String.ofList rest).splitOn "=" with
+    | [tr, v] =>
+      match tr.splitOn "." with
+      | [t, r] => do pure (Op.tableUpdate (← t.toNat?) (← r.toNat?) (← v.toNat?))
+      | _ => none
+    | _ => none
+  | 'U' :: rest =>
+    match (String.ofList rest).splitOn "." with
+    | [t, r] => do pure (Op.tableDelete (← t.toNat?) (← r.toNat?))
+    | _ => none
+  | 'c' :: rest =>
+    match (String.ofList rest).splitOn "?" with
+    | [k, ev] =>
+      match ev.splitOn "=" with
+      | [e, v] => do
+        let e' ← if e = "_" then some none else (e.toNat?).map some
+        pure (Op.cas (← k.toNat?) e' (← v.toNat?))
+      | _ => none
+    | _ => none
   | _ => none
 
 def parseOps (s : String) : Option (List Op) :=
@@ -78,10 +128,10 @@ def parseVote (s : String) : Option Vote :=
 
 def showStore (s : Store) : String :=
   let keys := sortOn id (dedupNat (s.map (·.1)))
-  ",".intercalate (keys.filterMap (fun k => (sget s k).map (fun v => s!"{k}={v}")))
+  ",".intercalate (keys.filterMap (fun k => (sget s k).map (fun v => s!"{k}={showVal v}")))
 
 def showUndo : Undo → String
-  | .restore k v => s!"r{k}={v}"
+  | .restore k v => s!"r{k}={showVal v}"
   | .delete k => s!"x{k}"
 
 def showPart (i : Nat) (p : Participant) : String :=
@@ -110,7 +160,8 @@ def showSys (s : Sys) : String :=
   let di := ",".intercalate (s.discarded.map (fun e => s!"{e.1}/{e.2}"))
   let rs := ",".intercalate (s.reasons.map (fun e => s!"{e.1}/{showReason e.2}"))
   let ao := ",".intercalate (s.appliedOps.map (fun e => s!"{e.1}/{e.2.1}/{showOps e.2.2}"))
-  s!"C:{c}|PA:{s.coord.pendingAborts.length}|{ps}|M:{s.msgs.length}|H:{s.nextHandle}|D:{d}|AP:{ap}|DI:{di}|R:{rs}|AO:{ao}"
+  let vc := ",".intercalate (s.cast.map (fun e => s!"{e.1}/{e.2.1}/{if e.2.2 then "y" else "c"}"))
+  s!"C:{c}|PA:{s.coord.pendingAborts.length}|{ps}|M:{s.msgs.length}|H:{s.nextHandle}|D:{d}|AP:{ap}|DI:{di}|R:{rs}|AO:{ao}|VC:{vc}"
 
 def showVoteErr : VoteErr → String
   | .notFound => "not_found"
@@ -157,7 +208,7 @@ def twopcStep (s : Sys) (line : String) : Sys × String :=
     match sh.toNat?, k.toNat?, v.toNat? with
     | some sh, some k, some v =>
       match s.parts[sh]? with
-      | some p => ({ s with parts := s.parts.set sh { p with store := sput p.store k v } }, "ok")
+      | some p => ({ s with parts := s.parts.set sh { p with store := sput p.store k (.data v) } }, "ok")
       | none => (s, "noshard")
     | _, _, _ => bad
   | "begin" :: shs :: ops :: sim :: _ =>   -- an optional 5th token (embedding ids) is for the harness only
@@ -172,6 +223,10 @@ def twopcStep (s : Sys) (line : String) : Sys × String :=
   | ["tick", d] => match d.toNat? with | some d => runEv s (.tick d) | none => bad
   | ["ccommit", t] => match t.toNat? with | some t => runEv s (.coordCommit t) | none => bad
   | ["cabort", t] => match t.toNat? with | some t => runEv s (.coordAbort t) | none => bad
+  | ["forge", t, sh, v] =>
+    match t.toNat?, sh.toNat?, parseVote v with
+    | some t, some sh, some v => runEv s (.forge t sh v)
+    | _, _, _ => bad
   | ["stale", sh, t] =>
     match sh.toNat?, t.toNat? with
     | some sh, some t => runEv s (.cleanupStale sh t)
